@@ -15,7 +15,7 @@ from mon.core.util import Counter, h64, rng
 ID = "C20"
 LEVEL = "exploration"
 
-N_SEQ = {"quick": 6000, "thorough": 400000}
+N_SEQ = {"quick": 6000, "thorough": 1600000}
 N_OPS = 30
 
 
